@@ -295,6 +295,7 @@ func (in *Interp) execSend(g *G, fr *Frame, x *ssa.Send) {
 		return
 	}
 	if in.schedPoint("send") {
+		in.yielded = false // this instruction is re-executed; the flag is only for intrinsic calls
 		return
 	}
 	if ch != nil && in.canSend(ch) {
@@ -342,6 +343,7 @@ func (in *Interp) execRecv(g *G, fr *Frame, x *ssa.UnOp) {
 		return
 	}
 	if in.schedPoint("recv") {
+		in.yielded = false // this instruction is re-executed; the flag is only for intrinsic calls
 		return
 	}
 	if ch != nil && in.canRecv(ch) {
@@ -388,6 +390,7 @@ func (in *Interp) execSelect(g *G, fr *Frame, x *ssa.Select) {
 		return
 	}
 	if in.schedPoint("select") {
+		in.yielded = false // this instruction is re-executed; the flag is only for intrinsic calls
 		return
 	}
 	var ready []int
